@@ -2,6 +2,8 @@
 // Compiled WITHOUT -fsanitize=thread. See dsched.h and /verif/DESIGN.md §2.1.
 #include "dsched.h"
 
+extern "C" void __libc_free(void*);
+
 #include <atomic>
 #include <cerrno>
 #include <cstdarg>
@@ -17,6 +19,7 @@
 #include <sched.h>
 #include <semaphore.h>
 #include <string>
+#include <sys/mman.h>
 #include <sys/syscall.h>
 #include <sys/time.h>
 #include <time.h>
@@ -464,16 +467,29 @@ int cond_wait_common(pthread_cond_t* c, pthread_mutex_t* m, const timespec* abs)
 }
 
 // ---- heap poisoning -------------------------------------------------------------------------
-std::vector<void*>* g_quarantine = nullptr;
+// Freed blocks (operator delete and free()) are filled with 0xDD and never returned to the allocator while a case runs
+// (the child _exits afterwards). Their addresses are recorded so that dsched_check_heap() can find WRITES to freed
+// memory at the end of the case: any byte that is no longer 0xDD.
+struct QEntry {
+  void* p;
+  size_t n;
+};
+constexpr size_t kQMax = 1u << 20;
+QEntry* g_q = nullptr;
+size_t g_qn = 0;
 void poison_free(void* p) {
   if (!p)
     return;
   if (g_active && g_cfg.poison_heap) {
     size_t n = malloc_usable_size(p);
     memset(p, 0xDD, n);
-    return; // quarantined for the rest of the case (child _exits)
+    if (!g_q)
+      g_q = (QEntry*)mmap(nullptr, kQMax * sizeof(QEntry), PROT_READ | PROT_WRITE, MAP_PRIVATE | MAP_ANONYMOUS | MAP_NORESERVE, -1, 0);
+    if (g_q != MAP_FAILED && g_qn < kQMax)
+      g_q[g_qn++] = QEntry{p, n};
+    return; // quarantined for the rest of the case
   }
-  free(p);
+  __libc_free(p);
 }
 
 } // namespace
@@ -507,6 +523,21 @@ void operator delete[](void* p, size_t) noexcept {
 }
 
 extern "C" {
+void free(void* p) {
+  poison_free(p);
+}
+int dsched_check_heap(char* msg, unsigned long cap) {
+  for (size_t i = 0; i < g_qn; ++i) {
+    const unsigned char* b = (const unsigned char*)g_q[i].p;
+    for (size_t k = 0; k < g_q[i].n; ++k)
+      if (b[k] != 0xDD) {
+        if (msg)
+          snprintf(msg, cap, "a freed block of %zu bytes was written to after it had been freed (offset %zu, byte now 0x%02x)", g_q[i].n, k, b[k]);
+        return 1;
+      }
+  }
+  return 0;
+}
 
 void dsched_begin(const dsched_cfg* cfg) {
   g_cfg = *cfg;
